@@ -447,6 +447,15 @@ class ScriptRun:
         if len(replies) > 1:
             self.fail("monitor", monitor="several-replies", line=line, detail=replies)
             return
+        # only the three methods that themselves wait may leave a line unanswered for a while — whatever the oracle does
+        if pending_real and (v["kind"] in ("help", "error", "get", "set") or
+                             (v["kind"] == "call" and v.get("member") not in ("gather_and_close", "until_closed", "flush"))):
+            self.fail("monitor", monitor="no-reply", line=line,
+                      detail={"replies": replies, "verdict": v["kind"], "member": v.get("member")})
+            if pending_exp:
+                await self.drop_pending(exp)
+            self.dead[s] = True
+            return
         if pending_real or pending_exp:
             if pending_real != pending_exp:
                 if self.mode == "tv" or v["kind"] != "outside":
